@@ -17,8 +17,9 @@ import vlib
 
 PROP = "C15"
 BASE = 0x400000
-FILESZ = {"equal": 24, "bss": 16, "page": 4096, "twopage": 8192, "one": 1, "empty": 0, "bsspage": 100}
-MEMSZ = {"equal": 24, "bss": 200, "page": 4096, "twopage": 8192, "one": 1, "empty": 0, "bsspage": 4096}
+FILESZ = {"equal": 24, "bss": 16, "page": 4096, "twopage": 8192, "one": 1, "empty": 0, "bsspage": 100, "bssonly": 0, "ua": 128, "ua2": 64}
+MEMSZ = {"equal": 24, "bss": 200, "page": 4096, "twopage": 8192, "one": 1, "empty": 0, "bsspage": 4096, "bssonly": 200, "ua": 384, "ua2": 1856}
+VOFF = {"ua": 0xf00, "ua2": 0xc0}
 
 
 def prot_of(f):
@@ -35,7 +36,7 @@ def config_file(cfg, rng):
     for i in range(n):
         fs = FILESZ[cfg["sz"][i]]
         data = bytes(1 + ((j + i + 1) % 200) for j in range(1, fs + 1))
-        segs.append({"type": elfgen.PT_LOAD, "flags": cfg["fl"][i], "vaddr": BASE + cfg["pg"][i] * 4096, "data": data, "memsz": MEMSZ[cfg["sz"][i]]})
+        segs.append({"type": elfgen.PT_LOAD, "flags": cfg["fl"][i], "vaddr": BASE + cfg["pg"][i] * 4096 + VOFF.get(cfg["sz"][i], 0), "data": data, "memsz": MEMSZ[cfg["sz"][i]]})
     phdrs = [segs[i] for i in order]
     if cfg["extra"] == "note":
         phdrs.insert(0, {"type": elfgen.PT_NOTE, "flags": 4, "vaddr": BASE + cfg["pg"][0] * 4096, "data": b"", "memsz": 0, "filesz": 0})
@@ -47,8 +48,8 @@ def config_file(cfg, rng):
         s0 = segs[0]
         n0 = min(16, MEMSZ[cfg["sz"][0]])
         phdrs.append({"type": elfgen.PT_TLS if cfg["extra"] == "tls" else 0x6474e552, "flags": 4, "vaddr": s0["vaddr"], "data": b"",
-                      "offset": 0x1000, "filesz": min(n0, FILESZ[cfg["sz"][0]]), "memsz": n0, "align": 8})
-    entry = BASE + cfg["pg"][0] * 4096
+                      "offset": 0, "filesz": min(n0, FILESZ[cfg["sz"][0]]), "memsz": n0, "align": 8})
+    entry = BASE + cfg["pg"][0] * 4096 + VOFF.get(cfg["sz"][0], 0)
     symbols = None
     symrec = []
     a1, a2 = entry + 4, entry + 8
@@ -148,7 +149,7 @@ def random_configs(rng, n):
         pgs = rng.sample([1, 2, 3, 4, 6, 9], k)
         szs = [rng.choice(list(FILESZ)) for _ in range(k)]
         # a two-page segment needs the next page free
-        if any(s == "twopage" and (p + 1) in pgs for s, p in zip(szs, pgs)):
+        if any(s in ("twopage", "ua") and (p + 1) in pgs for s, p in zip(szs, pgs)):
             continue
         cfgs.append({"n": k, "pg": pgs, "sz": szs, "fl": [rng.randrange(8) for _ in range(k)],
                      "sy": rng.choice(["none", "named", "unnamed", "dup", "entry-other-name"]), "extra": rng.choice(["none", "note", "gnustack", "tls", "relro"]),
